@@ -68,6 +68,11 @@ def construct_exc(cls, text):
     return cls(text)
 
 
+class _FileLike(object):
+    def __init__(self, closed):
+        self.closed = closed
+
+
 class Runtime:
     """All per-case mutable harness state."""
 
@@ -242,6 +247,10 @@ class Runtime:
                     rt.offered_reg.append(None if rt.reg is None else list(rt.reg))
                     if isinstance(message, dict) and message.get("message_type") == "eliot:destination_failure":
                         rt.raw_reports.append((d, message.get("message")))
+                    if rt.env.get("fileDests"):
+                        # a destination that looks like a FileDestination whose file the application closed (for a while):
+                        # it has a `file` attribute, and that reports `closed` while the destination's calls fail
+                        self.file = _FileLike((d, k) in rt.dest_fail)
                     if (d, k) in rt.dest_fail:
                         # what a report about this failure has to show of the message: repr of every key and value
                         shown = {_safe_repr(kk): _safe_repr(vv) for kk, vv in message.items()} if isinstance(message, dict) else None
